@@ -175,12 +175,75 @@ def editions(ck):
                    len(eds), len(eds), 0, dist, samples=[dict(edition="2018")], exhaustive=True, rule="editions 2015, 2018, 2021, 2024")
 
 
+WRAP_DECL = """
+#[derive(Debug)] pub struct S2 { pub a: i32, pub b: i32, pub s: String, pub o: Option<i32>, pub e: Ev2 }
+#[derive(Debug, PartialEq)] pub enum Ev2 { On, Off(i32) }
+"""
+# (name, macro definition before main, invocation, macro definition AFTER main (exported, reached by path))
+WRAPPERS = [
+    ("operands-from-caller", "macro_rules! m { ($v:expr, $x:expr, $y:expr) => { assert_struct!($v, S2 { a: == $x, b: > $y, .. }) }; }", "m!(&v, 5, 6)", ""),
+    ("literal-from-caller", "macro_rules! m { ($v:expr, $l:literal) => { assert_struct!($v, S2 { a: $l, .. }) }; }", "m!(&v, 5)", ""),
+    ("field-names-from-caller", "macro_rules! m { ($v:expr, $f:ident, $g:ident) => { assert_struct!($v, S2 { $f: 5, $g: 7, .. }) }; }", "m!(&v, a, b)", ""),
+    ("range-bounds-from-caller", "macro_rules! m { ($v:expr, $lo:expr, $hi:expr) => { assert_struct!($v, S2 { a: $lo..=$hi, .. }) }; }", "m!(&v, 5, 9)", ""),
+    ("pattern-in-definition", 'macro_rules! m { ($v:expr) => { assert_struct!($v, S2 { a: 5, b: > 6, s: "abc", o: Some(3), e: Ev2::Off(2) }) }; }', "m!(&v)", ""),
+    ("value-through-macro", "macro_rules! m { ($v:expr) => { $v }; }", 'assert_struct!(m!(&v), S2 { a: 5, b: > 6, s: "abc", .. })', ""),
+    ("variant-name-from-caller", "macro_rules! m { ($v:expr, $variant:ident) => { assert_struct!($v, S2 { e: Ev2::$variant(2), .. }) }; }", "m!(&v, Off)", ""),
+    ("variant-name-from-caller-definition-below", "", "crate::m_late!(&v, Off)", "#[macro_export] macro_rules! m_late { ($v:expr, $variant:ident) => { assert_struct!($v, S2 { e: Ev2::$variant(2), .. }) }; }"),
+    ("unit-variant-from-caller-definition-below", "", "crate::m_late!(&v, On)", "#[macro_export] macro_rules! m_late { ($v:expr, $variant:ident) => { assert_struct!($v, S2 { e: Ev2::$variant, .. }) }; }"),
+    ("struct-name-from-caller-definition-below", "", "crate::m_late!(&v, S2)", "#[macro_export] macro_rules! m_late { ($v:expr, $name:ident) => { assert_struct!($v, crate::$name { a: 5, .. }) }; }"),
+    ("definition-and-call-over-several-lines", "macro_rules! m { ($v:expr, $x:expr,\n $y:expr) => { assert_struct!($v,\n S2 {\n a: == $x,\n b: >\n $y,\n .. }) }; }", "m!(&v,\n 5,\n 6)", ""),
+    ("operands-from-caller-definition-below", "", "crate::m_late!(&v, 5)", "#[macro_export] macro_rules! m_late { ($v:expr, $x:expr) => { assert_struct!($v, S2 { a: >= $x, b: == $x + 2, .. }) }; }"),
+    ("range-from-caller-definition-below", "", "crate::m_late!(&v, 5, 9)", "#[macro_export] macro_rules! m_late { ($v:expr, $lo:expr, $hi:expr) => { assert_struct!($v, S2 { a: $lo..=$hi, .. }) }; }"),
+    ("field-path-from-caller-definition-below", "", "crate::m_late!(&v, a, b)", "#[macro_export] macro_rules! m_late { ($v:expr, $f:ident, $g:ident) => { assert_struct!($v, S2 { $f: 5, $g.clone(): 7, .. }) }; }"),
+    ("definition-in-another-module-file-order-reversed", "", "crate::zz::m_in_mod!(&v, On, 5)", "pub mod zz { #[macro_export] macro_rules! m_in_mod_impl { ($v:expr, $variant:ident, $x:expr) => {\n\n\n assert_struct!($v, crate::S2 { e: crate::Ev2::$variant, a: == $x, .. }) }; } pub use m_in_mod_impl as m_in_mod; }"),
+]
+
+
+def wrappers(ck):
+    """assert_struct! invoked from inside the user's own macro_rules! helpers: the tokens of one pattern then come partly from the helper's
+    definition and partly from its call, on unrelated lines (the definition may even sit below the call).  Whatever the recorded
+    positions look like, a failing assertion is one ordinary panic whose message is the report."""
+    import e2e
+    import t3
+    proj = e2e.Project("c06wrap")
+    dist = {}
+    try:
+        for k, (name, before, inv, after) in enumerate(WRAPPERS):
+            src = t3.HEADER + WRAP_DECL + before + '\nfn main() {\n let v = S2 { a: 4, b: 6, s: "abd".to_string(), o: Some(4), e: Ev2::Off(3) };\n' \
+                ' let r = std::panic::catch_unwind(|| { %s; });\n match r { Ok(_) => println!("RESULT returned"), Err(e) => println!("RESULT panic\\n{}\\nEND", ' \
+                'e.downcast_ref::<String>().cloned().unwrap_or_else(|| "<payload is not a String>".to_string())) }\n}\n%s\n' % (inv, after)
+            proj.add_bin("w%02d" % k, src)
+        res = proj.build()
+        for k, (name, before, inv, after) in enumerate(WRAPPERS):
+            r = res["w%02d" % k]
+            if not r["ok"]:
+                # not this property's business (hygiene of spanned templates under macro_rules is outside the property list, DESIGN section 9):
+                # the list above holds shapes that compile on the tree the check was written against
+                dist[name + ": does not compile"] = 1
+                ck.report("wrapper-rejected:" + name, "an assertion written through a macro_rules! helper no longer compiles (it did when the check was written)",
+                          dict(wrapper=name, definition=before or after, invocation=inv, rustc=[(d["code"], d["message"]) for d in r["diags"]][:3]), no_input=True)
+                continue
+            rc, out, err = proj.run("w%02d" % k)
+            msg = out.split("RESULT panic\n", 1)[1].split("\nEND", 1)[0] if "RESULT panic\n" in out else None
+            ok = rc == 0 and msg is not None and "assert_struct! failed" in msg and "got" in msg
+            dist[name + (": report in the panic message" if ok else ": NO report")] = 1
+            if not ok:
+                ck.report("no-report:wrapper:" + name, "a failing assertion written through a macro_rules! helper does not end in one ordinary panic with the report as its message (exit status %s)" % rc,
+                          dict(wrapper=name, definition=before or after, invocation=inv, exit_status=rc, stdout=out[:800], stderr=err[-600:]))
+    finally:
+        proj.cleanup()
+    ck.corr_record("T3 assertions written through the user's own macro_rules! helpers (pattern tokens partly from the helper's definition, partly from its call; definitions above and below the call, on one and on several lines): one ordinary panic with the report",
+                   len(WRAPPERS), len(WRAPPERS), 0, dist, samples=[dict(wrapper=WRAPPERS[8][0], definition=WRAPPERS[8][3], invocation=WRAPPERS[8][2])], exhaustive=True,
+                   rule="%d fixed programs, every one distinct" % len(WRAPPERS))
+
+
 def run(ck):
     ck.prove(["AsModel.Theorems.C06"])
     ck.build_harness("rt")
     renderer_contract(ck)
     display_matrix(ck)
     editions(ck)
+    wrappers(ck)
     ck.assumptions += [
         "annotate-snippets is represented by its observed contract (no panic iff every in-range offset is a char boundary), validated against the real renderer on every run",
         "file-system faults are modelled as 'read_to_string fails -> None' (missing, directory, not UTF-8); permission faults are not exercised (the sandbox runs as root)",
